@@ -686,7 +686,16 @@ fn run_inst<T: Sc>(line: &Line, idx: usize, pools: &Pools, opts: &Opts, rep: &mu
         let scaled_table = Arc::new(inst.table.row_scaled(w));
         let yscaled = DMatrix::from_fn(inst.n, inst.s, |i, s| w[i] * inst.y[(i, s)]);
         let twin = build_problem(TableModel::new(scaled_table, &a_first), mrhs, false, &yscaled, None, inst.eps_value(ev));
-        let weighted = inst.make(Kind::Table, &a_first, mrhs, false, &inst.y, wref, ev);
+        // the builder calls in both orders: weights -> observations on odd instances
+        let weighted = if idx % 2 == 1 {
+            let mut calls = vec![BCall::Weights(w.clone()), BCall::Observations(inst.y.clone())];
+            if let Some(e) = inst.eps_value(ev) {
+                calls.push(BCall::Epsilon(e));
+            }
+            build_with_calls(TableModel::new(inst.table.clone(), &a_first), mrhs, false, &calls).map_err(|e| format!("{e:?}"))
+        } else {
+            inst.make(Kind::Table, &a_first, mrhs, false, &inst.y, wref, ev)
+        };
         let unit_none = if w.iter().all(|v| v.to64() == 1.0) {
             inst.make(Kind::Table, &a_first, mrhs, false, &inst.y, None, ev).ok()
         } else {
